@@ -46,7 +46,7 @@ Proof.
     - apply Ht. cbn in Hn. rewrite skipn_all2 by lia. reflexivity.
     - cbn [length] in Hn. ev.
       assert (Hs : skipn n b = nth n b [] :: skipn (S n) b) by (apply skipn_nth_cons; lia).
-      stepn. split_if as Hc.
+      stepn. split_if as Hc; try rewrite (beqb_sym (nth n b []) x) in Hc.
       + stepsn. apply Hf. rewrite Hs. cbn [strs_eqb]. apply negb_true_iff in Hc. now rewrite Hc.
       + stepsn. replace (Z.of_nat n + 1) with (Z.of_nat (S n)) by lia.
         apply negb_false_iff in Hc.
@@ -76,6 +76,11 @@ Proof.
   - intros H. apply andb_prop in H. destruct H as [H1 H2]. unfold beqb in H1.
     destruct (bcmp x y) eqn:E; try discriminate. apply bcmp_eq in E. apply IH in H2. congruence.
   - intros H. inversion H; subst. unfold beqb. rewrite bcmp_refl. cbn. now apply IH.
+Qed.
+
+Lemma key_eqb_sym a b : key_eqb a b = key_eqb b a.
+Proof.
+  apply eq_true_iff_eq. rewrite !key_eqb_true_iff. split; congruence.
 Qed.
 
 (** * (c) StringSliceIsLess *)
@@ -131,12 +136,8 @@ Proof.
     + split; [eauto|reflexivity].
     + intros n e x ((vi & vs & ->) & Hinv) Hx.
       apply (nth_error_map_inv VStr a n x []) in Hx. destruct Hx as [Hn ->].
-      rewrite (ssl_all_skipn a b n Hn) in Hinv.
-      ev. stepn. split_if as Hlt.
-      { stepsn. now rewrite Hinv. }
-      stepn. split_if as Hgt.
-      { stepsn. now rewrite Hinv. }
-      stepsn. split; [eauto|exact Hinv].
+      rewrite (ssl_all_skipn a b n Hn) in Hinv. rewrite ?bgt_as_blt in Hinv.
+      ev. run_with ltac:(rewrite ?bgt_as_blt); first [now rewrite Hinv | split; [eauto|exact Hinv]].
     + intros e ((vi & vs & ->) & Hinv). rewrite length_map_VStr in Hinv.
       rewrite (skipn_all a) in Hinv. cbn [ssl_all] in Hinv.
       stepsn. now rewrite Hinv.
@@ -157,11 +158,8 @@ Proof.
       rewrite (ssl_pk_skipn pk a b n Hn) in Hinv.
       assert (Hu : (nth n pk O < length a)%nat /\ (nth n pk O < length b)%nat).
       { rewrite Forall_forall in WF'. apply WF'. now apply nth_In. }
-      ev. stepn. split_if as Hlt.
-      { stepsn. now rewrite Hinv. }
-      stepn. split_if as Hgt.
-      { stepsn. now rewrite Hinv. }
-      stepsn. split; [eauto|exact Hinv].
+      rewrite ?bgt_as_blt in Hinv.
+      ev. run_with ltac:(rewrite ?bgt_as_blt); first [now rewrite Hinv | split; [eauto|exact Hinv]].
     + intros e ((vi & vs & vu & ->) & Hinv). rewrite length_map_v_nat in Hinv.
       rewrite (skipn_all pk) in Hinv. cbn [ssl_pk] in Hinv.
       stepsn. now rewrite Hinv.
@@ -182,7 +180,7 @@ Proof.
   start_func go_pkIsDifferent. unfold v_strs, pk_is_different.
   stepn. stepn. destruct first.
   - stepsn. now rewrite Hcopy.
-  - stepn. step_call (go_StringSliceEqual_model prev pk).
+  - stepn. step_call go_StringSliceEqual_model. rewrite ?(key_eqb_sym pk prev).
     stepn. destruct (key_eqb prev pk).
     + stepsn. reflexivity.
     + stepsn. now rewrite Hcopy.
